@@ -1,6 +1,6 @@
 (* Proofs.Repo: RepoInv is an inductive invariant of Model.Repo (repaired), error answers leave the
    state alone, and the code as found violated both. *)
-From DV Require Import Base.Prelude Model.Repo Model.RepoInv.
+From DV Require Import Base.Prelude Gen.RepoFacts Model.Repo Model.RepoInv.
 From Coq Require Import String Ascii.
 From stdpp Require Import gmap strings.
 Local Open Scope string_scope.
@@ -16,14 +16,14 @@ Proof.
 Qed.
 
 Lemma branch_label_inj b1 b2 :
-  b1 <> "master" -> b2 <> "master" -> branch_label b1 = branch_label b2 -> b1 = b2.
+  b1 <> s_master_label -> b2 <> s_master_label -> branch_label b1 = branch_label b2 -> b1 = b2.
 Proof.
   unfold branch_label. intros H1 H2.
   destruct (String.eqb_spec b1 ""), (String.eqb_spec b2 ""); subst; auto; intros E; congruence.
 Qed.
 
 Lemma head_key_inj R1 R2 b1 b2 :
-  String.length R1 = 32%nat -> String.length R2 = 32%nat -> b1 <> "master" -> b2 <> "master" ->
+  String.length R1 = 32%nat -> String.length R2 = 32%nat -> b1 <> s_master_label -> b2 <> s_master_label ->
   head_key R1 b1 = head_key R2 b2 -> R1 = R2 /\ b1 = b2.
 Proof.
   unfold head_key. intros L1 L2 H1 H2 E.
@@ -386,7 +386,7 @@ Hypothesis Hn : r_nodes r !! v = Some n.
 Hypothesis Hlocked : n_locked n = true.
 Hypothesis Hlt : forall w x, r_nodes r !! w = Some x -> (w < cv)%N.
 Hypothesis Hsis : forall c cn, c ∈ n_children n -> r_nodes r !! c = Some cn -> n_branch cn <> b.
-Hypothesis Hbm : b <> "master".
+Hypothesis Hbm : b <> s_master_label.
 
 Let child := mkNode cu [v] [] b false.
 Let nodes' := <[cv := child]> (alter (add_child cv) v (r_nodes r)).
@@ -534,7 +534,7 @@ Qed.
 
 Lemma inv_new_version_core s i R r v n cu b :
   RepoInv s -> st_roots s !! i = Some R -> st_repos s !! i = Some r -> r_nodes r !! v = Some n ->
-  n_locked n = true -> st_u2v s !! cu = None -> cu <> "" -> b <> "master" ->
+  n_locked n = true -> st_u2v s !! cu = None -> cu <> "" -> b <> s_master_label ->
   (forall c cn, c ∈ n_children n -> r_nodes r !! c = Some cn -> n_branch cn <> b) ->
   (b = n_branch n \/ forall w x, r_nodes r !! w = Some x -> n_branch x <> b) ->
   RepoInv (upd_repo (set_repo_of (set_head (fst (new_uuid s cu)) (head_key (r_root r) b) cu) cu i) i
@@ -586,7 +586,7 @@ Proof.
             + simpl. congruence. }
         rewrite lookup_insert_ne.
         -- rewrite EU, EB. exact Hold.
-        -- intros Ek. assert (Hxm : n_branch x <> "master") by (rewrite EB; apply (wf_no_master r W w x0 H0)).
+        -- intros Ek. assert (Hxm : n_branch x <> s_master_label) by (rewrite EB; apply (wf_no_master r W w x0 H0)).
            destruct (head_key_inj _ _ _ _ (wf_root_len r W) (wf_root_len r W) Hbm Hxm Ek) as [_ Ek']. congruence.
     + (* another repo: its keys start with another root *)
       destruct (inv_root_eq s j Rj rj I HRj Hrj') as [ERj Wj].
@@ -597,7 +597,7 @@ Proof.
 Qed.
 
 Lemma inv_new_version s parent bname assign fresh :
-  RepoInv s -> bname <> "master" ->
+  RepoInv s -> bname <> s_master_label ->
   (assign = None -> fresh <> "" /\ st_u2v s !! fresh = None) ->
   RepoInv (fst (do_new_version repaired s parent bname assign fresh)).
 Proof.
@@ -622,7 +622,7 @@ Proof.
   destruct Hcu as [Hcu Hne].
   unfold new_uuid. simpl.
   (* what the branch computation guarantees *)
-  assert (Hb : b <> "master" /\
+  assert (Hb : b <> s_master_label /\
                (forall c cn, c ∈ n_children n -> r_nodes r !! c = Some cn -> n_branch cn <> b) /\
                (b = n_branch n \/ forall w x, r_nodes r !! w = Some x -> n_branch x <> b)).
   { destruct (String.eqb bname "" || String.eqb bname (n_branch n)) eqn:Ec.
@@ -954,7 +954,7 @@ Proof.
     + rewrite lookup_insert_ne in Hrj by auto.
       destruct (inv_root_eq s j Rj rj I HRj Hrj) as [ERj Wj].
       rewrite lookup_insert_ne; [apply (inv_heads s I j Rj rj w n HRj Hrj Hn Hb L)|].
-      intros Ek. assert (Hm : "" <> "master") by discriminate.
+      intros Ek. assert (Hm : "" <> s_master_label) by discriminate.
       destruct (head_key_inj _ _ _ _ (valid_uuid_len u Hval) (wf_root_len rj Wj) Hm (wf_no_master rj Wj w n Hn) Ek) as [Eu _].
       destruct (wf_root rj Wj) as (n0 & Hn0 & Un0 & _).
       destruct (Hold j Rj rj _ n0 HRj Hrj Hn0) as (_ & _ & Nu). congruence.
@@ -1125,6 +1125,13 @@ Qed.
 
 (* ------------------------------------------------------------------ handlers *)
 
+Lemma tag_branch_not_master t : s_tag_prefix ++ t <> s_master_label.
+Proof. unfold s_tag_prefix, s_master_label. simpl. discriminate. Qed.
+Lemma conflict_branch_not_master t : s_conflict_prefix ++ t <> s_master_label.
+Proof. unfold s_conflict_prefix, s_master_label. simpl. discriminate. Qed.
+Lemma refused_master b : in_list b l_branch_refused = false -> b <> s_master_label.
+Proof. intros H ->. vm_compute in H. discriminate. Qed.
+
 Lemma fresh_ok_parts s f : fresh_ok s f -> f <> "" /\ st_u2v s !! f = None.
 Proof. intros [V N]. split; auto. now apply valid_uuid_nonempty. Qed.
 
@@ -1146,21 +1153,17 @@ Lemma inv_h_branch s x b a f : RepoInv s -> fresh_ok s f -> RepoInv (fst (h_bran
 Proof.
   intros I Hf. unfold h_branch. destruct (node_gate s x true); try exact I.
   destruct (parse_assign a); try exact I.
-  destruct (String.eqb b "" || String.eqb b "master") eqn:E; [exact I|].
-  apply orb_false_iff in E as [_ E]. apply eqb_false_ne in E.
+  destruct (in_list b l_branch_refused) eqn:E; [exact I|].
+  apply refused_master in E.
   apply inv_new_version; [exact I|exact E|intros _; now apply fresh_ok_parts].
 Qed.
 
-Lemma tag_branch_not_master t : "tag-" ++ t <> "master".
-Proof. simpl. discriminate. Qed.
-Lemma conflict_branch_not_master t : "conflict-" ++ t <> "master".
-Proof. simpl. discriminate. Qed.
 
 Lemma inv_h_tag s x t : RepoInv s -> RepoInv (fst (h_tag repaired s x t)).
 Proof.
   intros I. unfold h_tag. destruct (node_gate s x true); try exact I.
-  pose proof (inv_new_version s a ("tag-" ++ t) (Some t) "" I (tag_branch_not_master t)) as H.
-  destruct (do_new_version repaired s a ("tag-" ++ t) (Some t) "") as [s1 r].
+  pose proof (inv_new_version s a (s_tag_prefix ++ t) (Some t) "" I (tag_branch_not_master t)) as H.
+  destruct (do_new_version repaired s a (s_tag_prefix ++ t) (Some t) "") as [s1 r].
   simpl in H. assert (I1 : RepoInv s1) by (apply H; discriminate).
   destruct r; simpl; auto. now apply inv_commit.
 Qed.
@@ -1204,15 +1207,15 @@ Lemma h_branch_frame s x b a f : is_done (snd (h_branch repaired s x b a f)) = f
   fst (h_branch repaired s x b a f) = s.
 Proof.
   unfold h_branch. destruct (node_gate s x true); auto.
-  destruct (parse_assign a); auto. destruct (String.eqb b "" || String.eqb b "master"); auto.
+  destruct (parse_assign a); auto. destruct (in_list b l_branch_refused); auto.
   apply new_version_frame.
 Qed.
 
 Lemma h_tag_frame s x t : is_done (snd (h_tag repaired s x t)) = false -> fst (h_tag repaired s x t) = s.
 Proof.
   unfold h_tag. destruct (node_gate s x true); auto.
-  pose proof (new_version_frame repaired s a ("tag-" ++ t) (Some t) "") as F.
-  destruct (do_new_version repaired s a ("tag-" ++ t) (Some t) "") as [s1 r]. simpl in *.
+  pose proof (new_version_frame repaired s a (s_tag_prefix ++ t) (Some t) "") as F.
+  destruct (do_new_version repaired s a (s_tag_prefix ++ t) (Some t) "") as [s1 r]. simpl in *.
   destruct r; simpl; try discriminate; intros _; now apply F.
 Qed.
 
@@ -1267,10 +1270,10 @@ Proof.
     destruct (nth_error olds k) as [old|]; [|exact Hskip].
     destruct (extension_of ext old); [exact Hskip|].
     destruct (A f) as [Hne Hcu]; [simpl; apply elem_of_cons; auto|].
-    pose proof (inv_new_version s old ("conflict-" ++ old) None f I (conflict_branch_not_master old)
+    pose proof (inv_new_version s old (s_conflict_prefix ++ old) None f I (conflict_branch_not_master old)
                   (fun _ => conj Hne Hcu)) as I1.
-    pose proof (new_version_u2v_other repaired s old ("conflict-" ++ old) None f) as U1.
-    destruct (do_new_version repaired s old ("conflict-" ++ old) None f) as [s1 o]. simpl in I1, U1.
+    pose proof (new_version_u2v_other repaired s old (s_conflict_prefix ++ old) None f) as U1.
+    destruct (do_new_version repaired s old (s_conflict_prefix ++ old) None f) as [s1 o]. simpl in I1, U1.
     assert (A1 : absent s1 (List.map snd conf)).
     { intros g Hg. destruct (A' g Hg) as [G1 G2]. split; auto. apply U1; auto. intros ->. contradiction. }
     assert (Hgo : forall ext', RepoInv (fst (resolve_extend repaired s1 olds ext' conf)) /\
@@ -1589,14 +1592,14 @@ Proof.
     destruct OK as [I A D O E S1 S2].
     pose proof (O old Hold) as NSold.
     destruct (A f) as [Hne Hcu]; [apply elem_of_cons; auto|].
-    pose proof (inv_new_version s old ("conflict-" ++ old) None f I (conflict_branch_not_master old)
+    pose proof (inv_new_version s old (s_conflict_prefix ++ old) None f I (conflict_branch_not_master old)
                   (fun _ => conj Hne Hcu)) as I1.
-    pose proof (new_version_frame repaired s old ("conflict-" ++ old) None f) as Fr.
-    pose proof (new_version_new_node repaired s old ("conflict-" ++ old) f) as New.
-    pose proof (fun p lk => new_version_node_state repaired s old ("conflict-" ++ old) f p i lk I) as Keep.
-    pose proof (new_version_u2v_other repaired s old ("conflict-" ++ old) None f) as U1.
-    pose proof (new_version_data repaired s old ("conflict-" ++ old) f u Nuf) as D1.
-    destruct (do_new_version repaired s old ("conflict-" ++ old) None f) as [s1 o] eqn:Enw. simpl in *.
+    pose proof (new_version_frame repaired s old (s_conflict_prefix ++ old) None f) as Fr.
+    pose proof (new_version_new_node repaired s old (s_conflict_prefix ++ old) f) as New.
+    pose proof (fun p lk => new_version_node_state repaired s old (s_conflict_prefix ++ old) f p i lk I) as Keep.
+    pose proof (new_version_u2v_other repaired s old (s_conflict_prefix ++ old) None f) as U1.
+    pose proof (new_version_data repaired s old (s_conflict_prefix ++ old) f u Nuf) as D1.
+    destruct (do_new_version repaired s old (s_conflict_prefix ++ old) None f) as [s1 o] eqn:Enw. simpl in *.
     assert (Hne_u2v : forall p lk, node_state s p i lk -> p <> f).
     { intros p lk NS ->. destruct (node_state_u2v _ _ _ _ NS). congruence. }
     destruct o as [cu| | |].
